@@ -218,3 +218,5 @@ INFO = dict(
     outside=["strings beyond the bound", "non-linear nullable recursion", "shapes outside the catalogue"],
     assumptions=["weights >= 0", "pivots > 0"],
 )
+
+INFO["technique"] = 'symbolic execution of every grammar transformation with z3 real weights; input and output both evaluated by the derivation-sum oracle; z3 proves language equality per string; bounded'
